@@ -70,6 +70,7 @@ type shared struct {
 	dom           *graphalg.DomTree
 	simp          graph.Weighted
 	subK, subR    graph.Subgraph
+	raw0          string // snapshot of the raw inputs before the derived objects were built
 }
 
 // padF and padI copy a slice into a buffer whose spare capacity is more than twice the
@@ -104,6 +105,7 @@ func build(in *Inputs) *shared {
 		s.adj[i] = padI(l)
 	}
 	s.g = graph.IntGraph(s.adj)
+	s.raw0 = s.snapshotRaw() // before any library call touches the shared inputs
 	s.bg = graph.MakeBiGraph(s.g)
 	lo, hi := stats.Bounds(in.X1)
 	if !(lo < hi) {
@@ -146,8 +148,21 @@ func build(in *Inputs) *shared {
 	return s
 }
 
-// snapshot renders every shared slice (including the spare capacity) bit for bit.
+// snapshot renders every shared slice (including the spare capacity) bit for bit, plus
+// the state of the shared histogram and KDEs.
 func (s *shared) snapshot() string {
+	var b strings.Builder
+	b.WriteString(s.snapshotRaw())
+	u, bins, o := s.hist.Counts()
+	fmt.Fprintf(&b, "h:%d:%v:%d;", u, bins, o)
+	for _, k := range s.kdes {
+		fmt.Fprintf(&b, "k:%v:%x:%x:%x;", k.Kernel, math.Float64bits(k.Bandwidth), math.Float64bits(k.BoundaryMin), math.Float64bits(k.BoundaryMax))
+	}
+	return b.String()
+}
+
+// snapshotRaw covers the generated inputs only.
+func (s *shared) snapshotRaw() string {
 	var b strings.Builder
 	ff := func(name string, xs []float64) {
 		fmt.Fprintf(&b, "%s:%d:", name, len(xs))
@@ -164,11 +179,6 @@ func (s *shared) snapshot() string {
 	fmt.Fprintf(&b, "t:%v;", s.t[:cap(s.t)])
 	for i, l := range s.adj {
 		fmt.Fprintf(&b, "a%d:%d:%v;", i, len(l), l[:cap(l)])
-	}
-	u, bins, o := s.hist.Counts()
-	fmt.Fprintf(&b, "h:%d:%v:%d;", u, bins, o)
-	for _, k := range s.kdes {
-		fmt.Fprintf(&b, "k:%v:%x:%x:%x;", k.Kernel, math.Float64bits(k.Bandwidth), math.Float64bits(k.BoundaryMin), math.Float64bits(k.BoundaryMax))
 	}
 	return b.String()
 }
@@ -531,6 +541,9 @@ var checkPure = ev.Register("purity-determinism-races", func(in *Inputs) ev.Outc
 		return ev.Fail("harness error: inputs")
 	}
 	s := build(in)
+	if s.snapshotRaw() != s.raw0 {
+		return ev.Fail("a call made while deriving the shared objects (MakeBiGraph, LOESS, PolynomialRegression, InvCDF, SCC, IDom/Dom, SimplifyMulti, Subgraph*, histogram/KDE construction) modified an input:\nbefore %s\nafter  %s", diff(s.raw0, s.snapshotRaw()), diff(s.snapshotRaw(), s.raw0))
+	}
 	base := s.snapshot()
 	first := make([]string, len(reg))
 	sequential := func() ev.Outcome {
